@@ -74,6 +74,8 @@ def shards(tier, seed):
         for func in INF_FUNCS:
             out.append(dict(engine=engine, dtype="float64", func=func, leg="inf", n=3 if tier == "quick" else 4))
         out.append(dict(engine=engine, dtype="float64", func="*", leg="sizes"))
+        for kind in MANY_REQ:
+            out.append(dict(engine=engine, dtype="float64", func="*", leg="manyreq", kind=kind, n=4 if tier == "quick" else 5))
     # heavy (JIT) shards first so the pool is balanced
     out.sort(key=lambda s: 0 if s["engine"] in ("numba", "numbagg") else 1)
     return out
@@ -95,7 +97,23 @@ def label_legs(extra):
     return legs
 
 
+# many requested labels (>= 16): flox then codes the labels by binary search instead of a table / per-label loop
+MANY_REQ = {
+    "float-many": ((1.0, 3.0, 2.5, 99.0, float("nan")), [float(i) for i in range(16)]),
+    "int-wide-many": ((10**9, 3 * 10**9, 25 * 10**8, 99 * 10**9), [i * 10**9 for i in range(16)]),
+    "datetime-many": (("2001-01-02", "2001-01-04", "2001-01-03T12", "2001-04-10", "NaT"),
+                      [f"2001-01-{i + 1:02d}" for i in range(16)]),
+}
+MANY_FUNCS = ["sum", "count", "nanmax", "nanfirst", "mean"]
+
+
 def make_labels(kind, tup):
+    if kind == "float-many":
+        return np.array(tup, dtype=float)
+    if kind == "int-wide-many":
+        return np.array(tup, dtype=np.int64)
+    if kind == "datetime-many":
+        return np.array(tup, dtype="datetime64[ns]")
     if kind == "float":
         return np.array(tup, dtype=float)
     if kind == "int-requested":
@@ -111,7 +129,9 @@ def make_labels(kind, tup):
 
 def nontrivial(lab_tuple, kind):
     miss = {"float": lambda x: x != x, "int-requested": lambda x: x == 7, "str": lambda x: x is None,
-            "datetime": lambda x: x == "NaT"}[kind]
+            "datetime": lambda x: x == "NaT", "float-many": lambda x: x not in (1.0, 3.0),
+            "int-wide-many": lambda x: x not in (10**9, 3 * 10**9),
+            "datetime-many": lambda x: x not in ("2001-01-02", "2001-01-04")}[kind]
     present = [x for x in lab_tuple if not miss(x)]
     groups = set(present)
     hasmissing = len(present) != len(lab_tuple)
@@ -119,16 +139,16 @@ def nontrivial(lab_tuple, kind):
     return (len(groups) >= 2 or hasmissing) and big
 
 
-def check_case(res, engine, dtype, func, kind, requested, lab_tuple, V, oned=False):
+def check_case(res, engine, dtype, func, kind, requested, lab_tuple, V, oned=False, extra_kw=None):
     """Run the real call for one label tuple (all rows of V) and compare with the model."""
     labels = make_labels(kind, lab_tuple)
-    kw = dict(func=func, engine=engine)
+    kw = dict(func=func, engine=engine, **(extra_kw or {}))
     fk = _kw(func)
     if fk:
         kw["finalize_kwargs"] = fk
     if requested is not None:
         kw["expected_groups"] = np.array(requested)
-    mem = rm.members(labels.tolist() if kind != "datetime" else list(labels), requested)
+    mem = rm.members(labels.tolist() if not kind.startswith("datetime") else list(labels), requested)
     if requested is not None:
         order = list(requested)
     else:
@@ -136,7 +156,7 @@ def check_case(res, engine, dtype, func, kind, requested, lab_tuple, V, oned=Fal
         order = sorted(keys)
     if not mem and requested is None:
         return  # nothing but missing labels: no group exists (result layout unspecified)
-    exp, scope, present = e1.expected_table(func, V, labels.tolist() if kind != "datetime" else list(labels), order,
+    exp, scope, present = e1.expected_table(func, V, labels.tolist() if not kind.startswith("datetime") else list(labels), order,
                                             requested=requested, **fk)
     rtol = rm.rtol_for(dtype, func)
     rows = [V] if not oned else [V[i] for i in range(V.shape[0])]
@@ -164,7 +184,7 @@ def check_case(res, engine, dtype, func, kind, requested, lab_tuple, V, oned=Fal
         e, s = (exp, scope) if not oned else (exp[..., ri, :], scope[ri])
         # labels returned
         got_groups = out.groups[0]
-        if kind == "datetime":
+        if kind.startswith("datetime"):
             want_groups = np.array(order, dtype="datetime64[ns]") if order else np.array([], dtype="datetime64[ns]")
             okg = len(got_groups) == len(want_groups) and bool((np.asarray(got_groups).astype("datetime64[ns]") == want_groups).all())
         else:
@@ -210,6 +230,27 @@ def run_inf(res, shard):
             check_case(res, engine, "float64", func, "float", None, lab_tuple, V)
             res.nontrivial += V.shape[0]
     res.sample(dict(leg="inf", engine=engine, func=func, alphabet=["1", "nan", "inf", "-inf"], n=shard["n"]))
+    return res
+
+
+def run_manyreq(res, shard):
+    """16 requested labels, elements labelled with two of them, with an unrequested value between them, with one
+    above all of them, or with a missing label; requested order ascending and (sort=False) descending."""
+    engine, kind = shard["engine"], shard["kind"]
+    alphabet, requested = MANY_REQ[kind]
+    if kind == "datetime-many":
+        requested = list(np.array(requested, dtype="datetime64[ns]"))
+    for n in range(1, shard["n"] + 1):
+        V = space.value_matrix((1.0, -2.0, float("nan")), n, "float64")
+        for lab_tuple in itertools.product(alphabet, repeat=n):
+            if kind != "float-many" and n == shard["n"] and shard["n"] > 3:
+                continue
+            for func in MANY_FUNCS:
+                for req, extra in ((requested, {}), (requested[::-1], dict(sort=False))):
+                    check_case(res, engine, "float64", func, kind, req, lab_tuple, V, extra_kw=extra)
+            if nontrivial(lab_tuple, kind):
+                res.nontrivial += V.shape[0]
+    res.sample(dict(leg="manyreq", engine=engine, kind=kind, requested=16, label_alphabet=[str(a) for a in alphabet], n=shard["n"], funcs=MANY_FUNCS))
     return res
 
 
@@ -260,6 +301,8 @@ def run_shard(shard):
         return run_inf(res, shard)
     if shard.get("leg") == "sizes":
         return run_sizes(res, shard)
+    if shard.get("leg") == "manyreq":
+        return run_manyreq(res, shard)
     engine, dtype, func = shard["engine"], shard["dtype"], shard["func"]
     sampled = False
     nb, n1 = shard["nb"], shard["n1"]
